@@ -183,9 +183,10 @@ PLANS["C01"] = {
     "assumptions": ASSUME,
     "jobs": lambda tier: [
         hist_job("hist-pq", "pq", ALL_PROFILES + ",mutate,convert", q(tier, 500_000, 12_000_000)),
+        hist_job("hist-pq-huge", "pq", "huge", q(tier, 25_000, 400_000), shards=8, hashers="fixed"),
         bfs_job("bfs-pq", "pq", q(tier, "3:3,4:2,4:3", "3:3,4:2,4:3,5:2,3:5"), wide=q(tier, 0, 1)),
     ],
-    "floors": floors(floor_hist("hist-pq"), floor_bfs("bfs-pq")),
+    "floors": floors(floor_hist("hist-pq"), floor_bfs("bfs-pq"), floor_stat("hist-pq-huge", ["max_size"], 1000, "largest queue in the large-size job")),
 }
 PLANS["C02"] = {
     "level": "exploration",
@@ -193,11 +194,13 @@ PLANS["C02"] = {
     "assumptions": ASSUME,
     "jobs": lambda tier: [
         hist_job("hist-dpq", "dpq", ALL_PROFILES + ",mutate,convert", q(tier, 500_000, 12_000_000)),
+        hist_job("hist-dpq-huge", "dpq", "huge", q(tier, 25_000, 400_000), shards=8, hashers="fixed"),
         bfs_job("bfs-dpq", "dpq", q(tier, "3:3,4:2,4:3", "3:3,4:2,4:3,5:2,3:5"), wide=q(tier, 0, 1)),
     ],
     "floors": floors(
         floor_hist("hist-dpq"),
         floor_bfs("bfs-dpq"),
+        floor_stat("hist-dpq-huge", ["max_size"], 1000, "largest queue in the large-size job"),
         # both level parities x {crossed to the other chain, moved on its own chain, stayed}
         lambda agg, tier: ["hist-dpq: DPQ move class %d never observed" % i for i, x in enumerate((agg.get("hist-dpq") or {}).get("dpq_moves", [0] * 6)) if x == 0],
     ),
@@ -224,6 +227,7 @@ PLANS["C04"] = {
     "jobs": lambda tier: [
         hist_job("hist-all", "both", ALL_PROFILES + ",mutate,sorted,drainclear,capacity,convert,payload,incdec", q(tier, 400_000, 8_000_000), hashers="std,fixed,xx,brown"),
         hist_job("hist-degenerate", "both", "churn,bulk-small,growth-ties", q(tier, 60_000, 600_000), hashers="const,low2", shards=4),
+        hist_job("hist-huge", "both", "huge", q(tier, 25_000, 400_000), shards=8, hashers="std,fixed"),
         iters_job("iters-all", "Iter,IterRef,IntoIter,Drain,Sorted,IterMut,IterMutRef", max_n=q(tier, 4, 6), random=q(tier, 300, 3000)),
         Job("bulk", "ubcheck", "bulk", {"cases": q(tier, 150, 1500)}, shards=4),
         Job("serde", "ubcheck", "serde", {"len": q(tier, 3, 5), "random": q(tier, 200, 2000), "roundtrips": q(tier, 200, 2000), "nshards": 4}, shards=4, restartable=False),
